@@ -112,7 +112,7 @@ function run(text, seed, mask) {
   return { res, trace: trace.join(';'), show }
 }
 
-function hasFlagMismatchRisk(e) { // a `typeof0 <identifier>` node: the excluded point of the vlts theorem
+function hasFlagMismatchRisk(e) { // a `typeof0 <identifier>` node (former defect class, fixed: now counted as a real difference)
   if (e.k === 'un' && e.op === 'typeof0' && e.a.k === 'id') return true
   return ['a', 'b', 'c', 'f'].some(k => e[k] && hasFlagMismatchRisk(e[k])) || (e.args || []).some(hasFlagMismatchRisk)
 }
@@ -156,7 +156,6 @@ for (let li = 0; li < ops.length && n < max; li++) {
     if (same && a.res.ok && ctx === 'bool') same = !!a.res.v === !!b.res.v
     if (!same) {
       if (hasFlagOnNonIdentifier(input)) { knownWf++; break }
-      if (hasFlagMismatchRisk(input)) { known++; break }
       diffs++
       if (diffs <= 10) console.log('DIFF line ' + (li + 1) + ' ' + f[1] + ' mask=' + mask + '\n  in : ' + inText + '\n  out: ' + outText + '\n  in  -> ' + JSON.stringify({ ok: a.res.ok, v: a.res.ok ? a.show(a.res.v) : a.res.e, trace: a.trace }) + '\n  out -> ' + JSON.stringify({ ok: b.res.ok, v: b.res.ok ? b.show(b.res.v) : b.res.e, trace: b.trace }))
       break
